@@ -11,6 +11,11 @@ from concurrent.futures import ThreadPoolExecutor
 from .core import VERIF, REPO
 
 
+def _label(patch, prop=None):
+    d = os.path.basename(os.path.dirname(patch))
+    return os.path.basename(patch) if d == prop else "%s/%s" % (d, os.path.basename(patch))
+
+
 def _one(prop, patch, benign):
     base = "/dev/shm" if os.path.isdir("/dev/shm") else None
     d = tempfile.mkdtemp(prefix="bsa-mut-", dir=base)
@@ -18,7 +23,7 @@ def _one(prop, patch, benign):
         shutil.copytree(os.path.join(REPO, "src"), os.path.join(d, "src"))
         r = subprocess.run(["patch", "-p1", "-s", "-d", d, "-i", patch], stdout=subprocess.PIPE, stderr=subprocess.STDOUT, text=True)
         if r.returncode != 0:
-            return (os.path.basename(patch), "not-applicable", [])
+            return (_label(patch, prop), "not-applicable", [])
         env = dict(os.environ, BSA_REPO=d, BSA_NO_EVIDENCE="1", BSA_JOBS="4")
         r = subprocess.run([os.path.join(VERIF, "check"), prop], stdout=subprocess.PIPE, stderr=subprocess.STDOUT, text=True, env=env)
         rules = sorted(set(l.split()[0] for l in r.stdout.splitlines() if l.startswith("  " + prop + ".")))
@@ -26,7 +31,7 @@ def _one(prop, patch, benign):
             st = {0: "silent", 1: "false-alarm", 2: "analysis-broken"}.get(r.returncode, "rc=%d" % r.returncode)
         else:
             st = {0: "missed", 1: "caught", 2: "analysis-broken"}.get(r.returncode, "rc=%d" % r.returncode)
-        return (os.path.basename(patch), st, rules)
+        return (_label(patch, prop), st, rules)
     finally:
         shutil.rmtree(d, ignore_errors=True)
 
@@ -34,6 +39,13 @@ def _one(prop, patch, benign):
 def corpus(prop, parallel=5):
     neg = sorted(glob.glob(os.path.join(VERIF, "mutants", prop, "*.patch")))
     ben = sorted(glob.glob(os.path.join(VERIF, "mutants", "benign", prop, "*.patch")))
+    # the behaviour-preserving edits of the lower components whose clauses are re-evaluated here (DEPENDS) must stay silent too
+    try:
+        import importlib
+        for dep in sorted(getattr(importlib.import_module(prop), "DEPENDS", {}) or {}):
+            ben += sorted(glob.glob(os.path.join(VERIF, "mutants", "benign", dep, "*.patch")))
+    except ImportError:
+        pass
     with ThreadPoolExecutor(max_workers=parallel) as ex:
         rn = list(ex.map(lambda p: _one(prop, p, False), neg))
         rb = list(ex.map(lambda p: _one(prop, p, True), ben))
